@@ -247,7 +247,7 @@ def job_chain_subband(T, n, asc):
 
 
 # ---------------------------------------------------------------- (H) histories on real files
-OPS = ('get_waterfall', 'copy', 'save_load', 'slice', 'dedrift', 'timesel_load', 'edit_inplace')
+OPS = ('get_waterfall', 'copy', 'save_load', 'slice', 'dedrift', 'timesel_load', 'edit_inplace', 'failed_save')
 
 
 def apply_history(stg, fr, ops, ext, tmp, tag):
@@ -260,6 +260,12 @@ def apply_history(stg, fr, ops, ext, tmp, tag):
             fn = os.path.join(tmp, f'{tag}_{k}.{ext}')
             (fr.save_fil if ext == 'fil' else fr.save_h5)(fn)
             fr = stg.Frame(waterfall=fn)
+        elif op == 'failed_save':
+            # a save that fails inside the writer (target directory missing); whatever it set up must not stick
+            try:
+                (fr.save_fil if ext == 'fil' else fr.save_h5)(os.path.join(tmp, 'no_such_dir', f'{tag}_{k}.{ext}'))
+            except Exception:
+                pass
         elif op == 'edit_inplace':
             # what add_signal / add_noise do: the SAME data array is modified in place (values stay exact in float32)
             fr.data += 1024.0
